@@ -3,8 +3,8 @@
 
 Real code under check: pyunicorn.core.resistive_network.ResNetwork (and the compiled
 current-flow kernels it calls).  Oracle: specs/resistive.py (Kirchhoff's laws on the grounded
-Laplacian, exact rational arithmetic for the small real networks; series/parallel reductions
-for the circuits).  See SCOPE / RULE below.
+Laplacian: exact rational arithmetic for real networks with <= 5 nodes, float64 LU solve for
+larger / complex ones; series/parallel reductions for the circuits).  See SCOPE / RULE below.
 """
 import os
 for _v in ("OPENBLAS_NUM_THREADS", "OMP_NUM_THREADS", "MKL_NUM_THREADS"):
@@ -139,7 +139,6 @@ def draw_res(rng, A, cplx=False):
 
 
 def next_step(rng, A, prev, kind):
-    n = len(A)
     Aa = np.array(A)
     if kind == "new":
         return draw_res(rng, A, cplx=False)
@@ -195,7 +194,7 @@ def oracle_for(A, Rm):
     """Definition-level values for network (A, Rm)."""
     n = len(A)
     cplx = np.iscomplexobj(Rm)
-    if not cplx and n <= 6:
+    if not cplx and n <= 5:
         Rf = [[Fraction(float(Rm[i][j])) for j in range(n)] for i in range(n)]
         G = S.conductance(Rf, A)
         X = S.grounded_inverse(G)
@@ -588,7 +587,7 @@ def build_scenarios(tier, seed):
         v += 1
     if tier == "thorough":
         for gi, A in enumerate(connected_graphs(6)):
-            scens.append(make_scenario(rng, "g6-%d" % gi, A, v, nsteps=1, cplx0=(v % 8 == 7)))
+            scens.append(make_scenario(rng, "g6-%d" % gi, A, v, nsteps=1 if gi % 3 == 0 else 0, cplx0=(v % 8 == 7)))
             v += 1
     return scens
 
